@@ -124,9 +124,11 @@ theorem raw_ascii (s : List UInt8) (h : ∀ b ∈ s, b ≠ 0 ∧ b.toNat < 128) 
     simp
 
 /-- second table fact: a one-byte entry of a non-zero code point is not NUL; the first byte of a two-byte entry
-    is a 2-byte lead C2–DF (so no entry is a cut-off longer sequence) -/
+    is a 2-byte lead C2–DF and its second byte a continuation byte 80–BF (every entry is well-formed UTF-8 of one
+    code point below U+0800; in particular no entry is a cut-off longer sequence) -/
 def shape2OK (i : Nat) (a b : UInt8) : Bool :=
-  if b == 0 then (i == 0 || a != 0) else (decide (0xC2 ≤ a) && decide (a < 0xE0))
+  if b == 0 then (i == 0 || a != 0)
+  else (decide (0xC2 ≤ a) && (decide (a < 0xE0) && (decide (0x80 ≤ b) && decide (b < 0xC0))))
 
 theorem enc32_no_nul (c : Nat) (h : 128 ≤ c) (h' : c < 2097152) : ∀ b ∈ enc32 (c : Int), b ≠ 0 := by
   rw [enc32_nat c h h']
@@ -309,7 +311,7 @@ theorem lowerOf_full (c : Nat) (h0 : c ≠ 0) (hc : c < 2097152) : FullW (lowerO
     · have hb0 : (b == 0) = false := by simpa using hz
       simp only [hb0, Bool.false_eq_true, if_false, Bool.and_eq_true, decide_eq_true_eq] at f2
       have l1 : 194 ≤ a.toNat := UInt8.le_iff_toNat_le.mp f2.1
-      have l2 : a.toNat < 224 := UInt8.lt_iff_toNat_lt.mp f2.2
+      have l2 : a.toNat < 224 := UInt8.lt_iff_toNat_lt.mp f2.2.1
       have hne : (b != 0) = true := by simpa using hz
       rw [if_pos hne]
       have : code2 a.toNat b.toNat ≠ 0 := by rw [code2_arith]; omega
